@@ -17,6 +17,8 @@ type c04PS struct {
 	params rlwe.Parameters
 	logN   int
 	Q, P   []uint64
+	sBound int64 // bound on |s_i| of the secret distribution (1 ternary; the truncation bound for Gaussian secrets)
+	xs     int   // c04XsChoice the set was built with
 }
 
 // c04Primes returns distinct NTT-friendly primes of the requested bit sizes (alternating around 2^bits).
@@ -49,16 +51,36 @@ func c04Primes(logN int, bitsQ, bitsP []int) (Q, P []uint64, ok bool) {
 	return Q, P, true
 }
 
+// c04XsChoice selects the secret distribution of the next parameter sets built by c04NewPS:
+// 0 default Ternary{P: 2/3}; 1 Ternary{H: N/4}; 2 Ternary{P: 0.3}; 3 DiscreteGaussian{3.2, 19.2}; 4 DiscreteGaussian{8, 48}.
+var c04XsChoice = 0
+
+// c04RingType selects the ring type of the next parameter sets built by c04NewPS.
+var c04RingType = ring.Standard
+
 func c04NewPS(logN int, Q, P []uint64, ntt bool) (*c04PS, error) {
-	lit := rlwe.ParametersLiteral{LogN: logN, Q: Q, NTTFlag: ntt}
+	lit := rlwe.ParametersLiteral{LogN: logN, Q: Q, NTTFlag: ntt, RingType: c04RingType}
 	if len(P) > 0 {
 		lit.P = P
+	}
+	sB := int64(1)
+	switch c04XsChoice {
+	case 1:
+		lit.Xs = ring.Ternary{H: (1 << logN) / 4}
+	case 2:
+		lit.Xs = ring.Ternary{P: 0.3}
+	case 3:
+		lit.Xs = ring.DiscreteGaussian{Sigma: 3.2, Bound: 19.2}
+		sB = 20
+	case 4:
+		lit.Xs = ring.DiscreteGaussian{Sigma: 8, Bound: 48}
+		sB = 48
 	}
 	params, err := rlwe.NewParametersFromLiteral(lit)
 	if err != nil {
 		return nil, err
 	}
-	return &c04PS{params: params, logN: logN, Q: Q, P: P}, nil
+	return &c04PS{params: params, logN: logN, Q: Q, P: P, sBound: sB, xs: c04XsChoice}, nil
 }
 
 func (ps *c04PS) N() int { return 1 << ps.logN }
@@ -487,7 +509,11 @@ func (ps *c04PS) ksNoiseBound(lvl, lp, w int, shape []int) *big.Int {
 	b := new(big.Int).Mul(sum, big.NewInt(N*Be))
 	if lp >= 0 {
 		b.Div(b, c04ProdBig(ps.P[:lp+1]))
-		b.Add(b, big.NewInt((N+1)/2+2))
+		sB := ps.sBound
+		if sB == 0 {
+			sB = 1
+		}
+		b.Add(b, big.NewInt((N*sB+1)/2+2)) // rounding: (1 + ||s_out||_1)/2
 	}
 	return b
 }
